@@ -13,7 +13,8 @@ EXPLANATION = (
     "cut short (the polling loop's exhaustion branch; the sequential deadline test); every early exit from a "
     "search loop is such a path. R2: timed_out is what both outputs receive as lcd_warning and what the "
     "footer / LCDWarning are keyed on. R3: every started worker is joined on every exit of the manager "
-    "block; on the time-out path a live worker is killed before it is joined. R4: the shared list is copied "
+    "block; on the time-out path a live worker is killed with an uncatchable signal (os.kill(pid, SIGKILL) or "
+    "Process.kill(); terminate() = SIGTERM can be caught or ignored through inherited handlers) before it is joined. R4: the shared list is copied "
     "inside the manager block, after the joins. R5: the search writes only locals, self.timed_out and "
     "copies - not self.dg, not the kernel's instruction forms (throughput and critical path cannot be "
     "affected). R6: every path-enumeration site reachable from check_for_loopcarried_dep is under the "
